@@ -595,3 +595,5 @@ def _tree_seed_replay(env):
 META['explanation'] += ' Structural claims: no generator object, mutable container or mutable default argument lives on a module / class of the computing packages.'
 
 META['explanation'] += ' Replay A is configured with interned literals, replay B with equal-by-value copies of other identity (strings as a parser would produce them): identically configured means equal, not identical.'
+
+META['explanation'] += ' Constructors never call seed() on a global generator; importing the library in a fresh interpreter leaves warning filters, NumPy error state and the generator states unchanged; functools caches are cleared before every path; configurations in which replay B is given the very objects of replay A.'
